@@ -300,7 +300,7 @@ Definition gq_block : prog :=
                   Continue))
     (AdvG Continue))))
     (Ret K_LSTR).
-Definition graphql_next : prog :=
+Definition graphql_next_pre : prog :=
   gq_skip (Mark
   (If TEnd (Ret K_EOF)
   (If (TCur (CAny [33; 36; 38; 40; 41; 58; 61; 64; 91; 93; 123; 125; 124])) (AdvG (Ret K_PUNCT))
@@ -316,8 +316,9 @@ Definition graphql_next : prog :=
   (If (TCur (COr CFAlpha (CEq 95))) (AdvG it_idrest)
   (AdvG (Ret K_EOF))))))))).
 
-(** the GraphQL lexer with the proposed repair (proposed-fixes/C12-graphql-lexer-utf8.diff): [peek_next] and
-    the closing-quote test look ahead on a clone of the character iterator instead of slicing the source *)
+(** the GraphQL lexer as it is now (after 9a1aff1): [peek_next] and the closing-quote test look ahead on a
+    clone of the character iterator ([TAh]) instead of slicing the source at a character count ([TSl]);
+    [graphql_next_pre] above is the code before that repair *)
 Fixpoint repair_sl (p : prog) : prog :=
   match p with
   | AdvG k => AdvG (repair_sl k)
@@ -333,12 +334,12 @@ Fixpoint repair_sl (p : prog) : prog :=
   | While b k => While (repair_sl b) (repair_sl k)
   | x => x
   end.
-Definition graphql_next_repaired : prog := repair_sl graphql_next.
+Definition graphql_next : prog := repair_sl graphql_next_pre.
 
 Definition lex_gql := lex Byte gql_next.
 Definition lex_gql_pre := lex Byte gql_next_pre.
 Definition lex_cypher := lex Byte cypher_next.
 Definition lex_sparql := lex Byte sparql_next.
 Definition lex_gremlin := lex Iter gremlin_next.
+Definition lex_graphql_pre := lex Iter graphql_next_pre.
 Definition lex_graphql := lex Iter graphql_next.
-Definition lex_graphql_repaired := lex Iter graphql_next_repaired.
